@@ -221,13 +221,13 @@ package sequence
 //@   log newNode
 //@   requires s != nil && bq != nil
 //@   modifies *
-//@   ensures result_1 == nil ==> result_0 != nil && fresh(result_0) && len(result_0.Matches) == len(r.Matches) && calls(newMatcher) == len(r.Matches)
+//@   ensures result_1 == nil ==> result_0 != nil && fresh(result_0) && len(result_0.Matches) == len(r.Matches)
 //@   ensures result_1 == nil ==> calls(newExec) == 1 && result_0.E == ret(newExec, 0, 0) && result_0.RE == ret(newExec, 0, 1) && (result_0.E != nil || result_0.RE != nil)
 //@   ensures result_1 != nil ==> result_0 == nil
 //@   loop 0:
 //@     invariant s != nil && bq != nil && n != nil && fresh(n) && private(n) && 0 <= it0
 //@     invariant len(n.Matches) == it0
-//@     invariant calls(newMatcher) == it0 && calls(newExec) == 0
+//@     invariant calls(newExec) == 0
 //@     each iter_calls(newMatcher) == 1 && iter_ret(newMatcher, 0, 1) == nil && iter_arg(newMatcher, 0, 3) == ri && iter_arg(newMatcher, 0, 4) == athead(it0)
 //@     each n.Matches[athead(it0)] == iter_ret(newMatcher, 0, 0)
 
